@@ -15,6 +15,8 @@ package http
 import (
 	"context"
 	"encoding/base64"
+	"encoding/json"
+	"errors"
 	"fmt"
 	"io"
 	"net/http"
@@ -95,7 +97,13 @@ func (m *c20Follower) Reap() (int, int, error)                         { return 
 func (m *c20Follower) ReadFrom(r io.Reader) (int64, error)             { return 0, nil }
 
 // leader side as seen through the cluster client
-type c20Leader struct{ r *c20Rec }
+type c20Leader struct {
+	r *c20Rec
+	// deposed: the node forwarded to has lost leadership by the time the command arrives
+	deposed bool
+}
+
+var errC20Deposed = errors.New("not leader")
 
 func (m *c20Leader) GetNodeMeta(ctx context.Context, a string, r int, t time.Duration) (*cluster.NodeMeta, error) {
 	return &cluster.NodeMeta{Url: "http://leader-api:4001"}, nil
@@ -103,31 +111,52 @@ func (m *c20Leader) GetNodeMeta(ctx context.Context, a string, r int, t time.Dur
 func (m *c20Leader) Stats() (map[string]any, error) { return nil, nil }
 func (m *c20Leader) Execute(ctx context.Context, er *command.ExecuteRequest, addr string, creds *cluster.Credentials, t time.Duration, r int) ([]*command.ExecuteQueryResponse, uint64, error) {
 	m.r.addFwd("Execute", addr, creds)
+	if m.deposed {
+		return nil, 0, errC20Deposed
+	}
 	return []*command.ExecuteQueryResponse{{Result: &command.ExecuteQueryResponse_E{E: &command.ExecuteResult{LastInsertId: 4242, RowsAffected: 1}}}}, 77, nil
 }
 func (m *c20Leader) Query(ctx context.Context, qr *command.QueryRequest, addr string, creds *cluster.Credentials, t time.Duration, r int) ([]*command.QueryRows, uint64, error) {
 	m.r.addFwd("Query", addr, creds)
+	if m.deposed {
+		return nil, 0, errC20Deposed
+	}
 	return []*command.QueryRows{{Columns: []string{"LEADER-ROWS"}, Types: []string{"text"}}}, 77, nil
 }
 func (m *c20Leader) Request(ctx context.Context, eqr *command.ExecuteQueryRequest, addr string, creds *cluster.Credentials, t time.Duration, r int) ([]*command.ExecuteQueryResponse, uint64, uint64, error) {
 	m.r.addFwd("Request", addr, creds)
+	if m.deposed {
+		return nil, 0, 0, errC20Deposed
+	}
 	return []*command.ExecuteQueryResponse{{Result: &command.ExecuteQueryResponse_Q{Q: &command.QueryRows{Columns: []string{"LEADER-ROWS"}, Types: []string{"text"}}}}}, 1, 77, nil
 }
 func (m *c20Leader) Backup(ctx context.Context, br *command.BackupRequest, addr string, creds *cluster.Credentials, t time.Duration, w io.Writer) error {
 	m.r.addFwd("Backup", addr, creds)
+	if m.deposed {
+		return errC20Deposed
+	}
 	w.Write([]byte("LEADER-BACKUP"))
 	return nil
 }
 func (m *c20Leader) Load(ctx context.Context, lr *command.LoadRequest, addr string, creds *cluster.Credentials, t time.Duration, r int) error {
 	m.r.addFwd("Load", addr, creds)
+	if m.deposed {
+		return errC20Deposed
+	}
 	return nil
 }
 func (m *c20Leader) RemoveNode(ctx context.Context, rn *command.RemoveNodeRequest, addr string, creds *cluster.Credentials, t time.Duration) error {
 	m.r.addFwd("Remove", addr, creds)
+	if m.deposed {
+		return errC20Deposed
+	}
 	return nil
 }
 func (m *c20Leader) Stepdown(ctx context.Context, sr *command.StepdownRequest, addr string, creds *cluster.Credentials, t time.Duration) error {
 	m.r.addFwd("Stepdown", addr, creds)
+	if m.deposed {
+		return errC20Deposed
+	}
 	return nil
 }
 
@@ -266,6 +295,64 @@ func TestVerifC20HTTP(t *testing.T) {
 			}
 		}
 	}
+	// ---- leadership moved while the request was in flight: the node forwarded to answers "not leader".
+	// The caller must get an answer that says so (or a redirect if it asked for one) - never an empty 200.
+	cl.deposed = true
+	for _, ep := range eps {
+		for _, c := range creds {
+			rec.reset()
+			url := base + ep.path
+			if ep.query != "" {
+				url += "?" + ep.query
+			}
+			req, err := http.NewRequest(ep.method, url, strings.NewReader(ep.body))
+			if err != nil {
+				t.Fatal(err)
+			}
+			if ep.ctype != "" {
+				req.Header.Set("Content-Type", ep.ctype)
+			}
+			if c.present {
+				req.Header.Set("Authorization", "Basic "+base64.StdEncoding.EncodeToString([]byte(c.user+":"+c.pass)))
+			}
+			resp, err := client.Do(req)
+			if err != nil {
+				t.Fatalf("%s %s: %v", ep.method, url, err)
+			}
+			body, _ := io.ReadAll(resp.Body)
+			resp.Body.Close()
+			key := fmt.Sprintf("%s %s?%s creds=%s, the node forwarded to answers \"not leader\"", ep.method, ep.path, ep.query, c.name)
+			rep.Case(key, true)
+			rep.Count("deposed-leader:" + ep.path)
+			says := strings.Contains(string(body), "not leader")
+			var js map[string]interface{}
+			wellFormed := resp.StatusCode != http.StatusOK || (json.Unmarshal(body, &js) == nil && (js["error"] != nil || js["results"] != nil))
+			if !says || !wellFormed {
+				rep.Fail("http:"+ep.path+":forwarded-request-refused-by-deposed-leader-is-not-reported",
+					fmt.Sprintf("%s: status %d, body %q - the caller is told neither where the leader is nor that the request was not executed", key, resp.StatusCode, body),
+					map[string]interface{}{"request": key, "status": resp.StatusCode, "body": string(body)})
+			}
+			cr := "0"
+			if c.present {
+				cr = "1"
+			}
+			ops = append(ops, fmt.Sprintf("proxy %s nl 0 %s nl %s 0", ep.kind, vfHex("leader-raft:4002"), cr))
+			crs := "nil"
+			if c.present {
+				crs = "caller"
+			}
+			obs := "calls=local:" + ep.kind + ",leaderaddr,remote:" + ep.kind + ":" + vfHex("leader-raft:4002") + ":creds=" + crs
+			if says {
+				obs += " result=err-remote-not-leader"
+			} else {
+				obs += fmt.Sprintf(" result=unreported(status %d, %d body bytes)", resp.StatusCode, len(body))
+			}
+			impl = append(impl, obs)
+		}
+	}
+	cl.deposed = false
+	// every non-redirect answer of the first part carried results or an error: checked above per endpoint
+
 	// compare with the model up to the timeout/retries detail (those are the proxy-level run's subject)
 	model, err := vfModel("proxy", ops)
 	if err != nil {
